@@ -65,6 +65,22 @@ theorem erf_tendsto_atBot : Tendsto erf atBot (𝓝 (-1)) := by
   rw [intervalIntegral.integral_symm, neg_neg]
 
 
+theorem erf_strictMono : StrictMono erf := by
+  apply strictMono_of_deriv_pos
+  intro x
+  rw [(erf_hasDerivAt x).deriv]
+  have hpi : (0:ℝ) < √π := Real.sqrt_pos.mpr Real.pi_pos
+  positivity
+
+/-- `-1 < erf z < 1` (ground axiom of the z3 side) -/
+theorem erf_bounds (z : ℝ) : -1 < erf z ∧ erf z < 1 := by
+  have hlow : ∀ y : ℝ, -1 < erf y := fun y =>
+    lt_of_le_of_lt (erf_strictMono.monotone.le_of_tendsto erf_tendsto_atBot (y - 1)) (erf_strictMono (by linarith : y - 1 < y))
+  refine ⟨hlow z, ?_⟩
+  have := hlow (-z)
+  rw [erf_neg] at this
+  linarith
+
 /-- The closed form of the property: 1/2 exp(α(α-2β)) (1 + erf(β-α)). -/
 noncomputable def closedForm (k μ σ t : ℝ) : ℝ :=
   1 / 2 * exp (k * σ / √2 * (k * σ / √2 - 2 * ((t - μ) / (σ * √2)))) * (1 + erf ((t - μ) / (σ * √2) - k * σ / √2))
@@ -171,3 +187,4 @@ end PyVC
 
 #print axioms PyVC.convolution_closed_form
 #print axioms PyVC.erf_neg
+#print axioms PyVC.erf_bounds
